@@ -169,11 +169,25 @@ func (p *Program) preDecodeBlocks() ExitReason {
 
 		for {
 			if pc >= ProgramCounter(n) {
-				return ExitPanic
+				// the block runs past the end of the code: ζ is zero-extended
+				// (GP A.2), so it ends with an implicit trap executed if reached
+				p.Instrs = append(p.Instrs, InstrMeta{
+					PC:     pc,
+					Opcode: 0,
+					Dst:    0xFF,
+					Src:    [2]uint8{0xFF, 0xFF},
+					Exec:   instrMetaExecForOpcode(0),
+				})
+				block.EndPC = pc
+				block.InstrEnd = len(p.Instrs)
+				block.GasCost = Gas(block.InstrEnd - block.InstrStart)
+				p.BlockAt[block.StartPC] = block
+				break
 			}
 			op := idata[pc]
 			if !IsValidOpcode(op) {
-				return ExitPanic
+				// (GP A.19) an invalid opcode behaves as trap when it is reached
+				op = 0
 			}
 
 			skipLen := skip(int(pc), bitmask)
